@@ -775,6 +775,7 @@ func c15Next(c *Ctx) {
 	// check-then-insert atomic: no unlock between the lookup and the insert
 	var lk *ssa.Lookup
 	var ins *ssa.MapUpdate
+	var allIns []*ssa.MapUpdate
 	EachInstr(next, func(in ssa.Instruction) {
 		switch x := in.(type) {
 		case *ssa.Lookup:
@@ -783,10 +784,20 @@ func c15Next(c *Ctx) {
 			}
 		case *ssa.MapUpdate:
 			if IsFieldLoad(x.Map, "NextIterator", "gs") {
-				ins = x
+				allIns = append(allIns, x)
 			}
 		}
 	})
+	// the insert = the update made where the lookup missed; an update on the hit edge is the plain-integer form of
+	// "advance the counter" (decided with the returned values below)
+	for _, x := range allIns {
+		if lk != nil && HasBoolFact(BoolFactsAt(x), IsResultOf(lk, 1), false) {
+			ins = x
+		}
+	}
+	if ins == nil && len(allIns) > 0 {
+		ins = allIns[len(allIns)-1]
+	}
 	if lk == nil || ins == nil {
 		c.Bad("O15.5", fk(next)+":lookup-and-insert", next.Pos(), "Next must look the path's counter up in gs and insert a missing one")
 	} else {
@@ -826,6 +837,21 @@ func c15Next(c *Ctx) {
 				}
 			case found:
 				for _, v := range vals {
+					// plain-integer counters: the value found plus one, written back under the same key before returning
+					if bo, isB := v.(*ssa.BinOp); isB && bo.Op == token.ADD && DerivesOnly(bo.X, false, IsResultOf(lk, 0)) {
+						one, isOne := ConstInt(bo.Y)
+						stored := false
+						for _, x := range allIns {
+							if x != ins && Strip(x.Value) == ssa.Value(bo) && sameRoots(x.Key, lk.Index) && InstrDominates(x, r) {
+								stored = true
+							}
+						}
+						if isOne && one == 1 && stored {
+							continue
+						}
+						okVals = false
+						continue
+					}
 					cl, _ := CallOfValue(v)
 					if cl == nil || CalleeObj(&cl.Call) == nil || CalleeObj(&cl.Call).Name() != "Add" || !DerivesOnly(cl.Call.Args[0], false, IsResultOf(lk, 0)) {
 						okVals = false
